@@ -15,7 +15,7 @@ import tempfile
 import traceback
 
 from . import world as W
-from .harness import Engine, EventLog, Counter, violation, digest
+from .harness import Engine, EventLog, Counter, violation, digest, call_in_fork, ChildRaised, ChildCrashed
 
 PHASE_TAGS = ("HP", "PS", "PQ")
 
@@ -550,6 +550,10 @@ def gen_store_case(rng, prop, tier):
     depth = rng.choice([2, 3, 5, 8, 12, 20, 30])
     W.gen_library(rng, w, "L0", truth="main", depth=depth)
     W.gen_library(rng, w, "L1", truth="alt", depth=rng.choice([2, 4, 8, 16]))
+    # a library that says nothing about some samples and chromosomes (a re-phase with it must still drop their old phase)
+    W.gen_library(rng, w, "L2", truth="main", depth=rng.choice([3, 8]), samples=w["samples"][:1])
+    if len(w["chroms"]) > 1:
+        w["libs"]["L2"]["reads"] = [r for r in w["libs"]["L2"]["reads"] if r["chrom"] == 0]
     knobs = {
         "unsorted_gt": rng.random() < 0.25,
         "missing": rng.random() < 0.3,
@@ -590,9 +594,24 @@ def gen_store_case(rng, prop, tier):
             if x <= 0:
                 break
         if name == "phase" or name == "twin":
-            op = {"op": name, "lib": rng.choice(["L0", "L0", "L1"]), "noref": rng.random() < 0.15}
+            op = {"op": name, "lib": rng.choice(["L0", "L0", "L1", "L2"]), "noref": rng.random() < 0.15}
             if rng.random() < 0.15:
                 op["distrust"] = True
+            if rng.random() < 0.25:
+                # rarely used paths upstream of the writer
+                ex = {}
+                if rng.random() < 0.4:
+                    ex["algorithm"] = rng.choice(["heuristic", "hapchat"])
+                if rng.random() < 0.3:
+                    ex["max_coverage"] = rng.choice([2, 5, 8])
+                if rng.random() < 0.3:
+                    ex["read_merging"] = True
+                if rng.random() < 0.3 and not op.get("distrust"):
+                    ex["include_homozygous"] = True
+                if rng.random() < 0.2:
+                    ex["mapping_quality"] = rng.choice([0, 60])
+                if ex:
+                    op["extra"] = ex
             if name == "phase":
                 op["tag"] = rng.choice(["PS", "HP"])
                 if rng.random() < 0.15:
@@ -678,7 +697,10 @@ class StoreRun:
         self.initial_unphased_path = None
 
     # -- whatshap invocations
-    def _phase(self, inputs, variant_file, out, tag, samples=None, chroms=None, noref=False, only_snvs=False, distrust=False):
+    def _phase(self, inputs, variant_file, out, tag, samples=None, chroms=None, noref=False, only_snvs=False, distrust=False, extra=None):
+        return call_in_fork(lambda: self._phase_here(inputs, variant_file, out, tag, samples, chroms, noref, only_snvs, distrust, extra))
+
+    def _phase_here(self, inputs, variant_file, out, tag, samples=None, chroms=None, noref=False, only_snvs=False, distrust=False, extra=None):
         from whatshap.cli.phase import run_whatshap
 
         with WriterCapture() as cap:
@@ -686,7 +708,8 @@ class StoreRun:
                 phase_input_files=inputs, variant_file=variant_file, output=out,
                 reference=False if noref else os.path.join(self.dir, "ref.fa"),
                 samples=samples, chromosomes=chroms, tag=tag, write_command_line_header=False, only_snvs=only_snvs,
-                distrust_genotypes=distrust, include_homozygous=distrust,
+                distrust_genotypes=distrust, include_homozygous=distrust or bool((extra or {}).get("include_homozygous")),
+                **{k: v for k, v in (extra or {}).items() if k != "include_homozygous"},
             )
         written = {}
         for entry in cap.calls:
@@ -697,22 +720,48 @@ class StoreRun:
         return written, touched
 
     def _unphase(self, src, dst):
-        from whatshap.cli.unphase import run_unphase
+        def work():
+            from whatshap.cli.unphase import run_unphase
 
-        with open(dst, "w") as f:
-            run_unphase(src, f)
+            with open(dst, "w") as f:
+                run_unphase(src, f)
 
-    def guarded(self, what, fn, prop_for_crash, crash_class):
+        call_in_fork(work)
+
+    def guarded(self, what, fn, prop_for_crash, crash_class, rare_options=False):
         """run one whatshap invocation; CommandLineError = rejected by design; anything else = crash"""
         from whatshap.cli import CommandLineError
 
         try:
             return True, fn()
+        except ChildRaised as e:
+            if e.is_command_line_error:
+                self.stats.inc("op_rejected")
+                self.log.add("rejected", e.message[:80])
+                return False, None
+            if rare_options:
+                self.stats.inc("op_raised_with_rare_options")
+                self.stats.inc("op_raised_with_rare_options:%s" % e.type_name)
+                self.log.add("raised", e.type_name)
+                return False, None
+            self.add(prop_for_crash, crash_class, "%s raised %s: %s (in %s)" % (what, e.type_name, e.message, e.site),
+                     "%s:%s:%s" % (crash_class, e.type_name, e.site))
+            return False, None
+        except ChildCrashed as e:
+            self.add(prop_for_crash, crash_class, "%s: the whatshap process died (%s)" % (what, e), "%s:died" % crash_class)
+            return False, None
         except CommandLineError as e:
             self.stats.inc("op_rejected")
             self.log.add("rejected", str(e)[:80])
             return False, None
         except Exception as e:
+            if rare_options:
+                # `phase` raising on an unusual option combination (read merging on multi-sample input, --include-homozygous
+                # without --distrust-genotypes, ...) produces no output: no clause of C09 speaks about it. The history ends.
+                self.stats.inc("op_raised_with_rare_options")
+                self.stats.inc("op_raised_with_rare_options:%s" % type(e).__name__)
+                self.log.add("raised", type(e).__name__)
+                return False, None
             tb = traceback.format_exc()
             last = [l for l in tb.strip().splitlines() if l.strip().startswith("File")]
             site = last[-1].strip() if last else ""
@@ -848,14 +897,17 @@ class StoreRun:
         ok, res = self.guarded(what, lambda: self._phase([self.libs[lib]], self.current, out, tag,
                                                          samples=op.get("samples") and tsamples, chroms=op.get("chroms") and tchroms,
                                                          noref=op.get("noref", False), only_snvs=op.get("only_snvs", False),
-                                                         distrust=op.get("distrust", False)), "C09", "phase-crashed")
+                                                         distrust=op.get("distrust", False), extra=op.get("extra")), "C09", "phase-crashed",
+                               rare_options=bool(op.get("extra") or op.get("distrust")))
         if not ok:
             return False
         written, touched = res
         self.stats.inc("op_phase")
         if op.get("only_snvs"):
             self.stats.inc("phase_only_snvs")
-        if op.get("distrust"):
+        for k in (op.get("extra") or {}):
+            self.stats.inc("phase_opt_" + k)
+        if op.get("distrust") or (op.get("extra") or {}).get("include_homozygous"):
             self.stats.inc("phase_distrust_genotypes")
             # genotypes may legitimately have been changed by this run: "same records as unphasing the original"
             # (U5) no longer applies to the rest of the history
@@ -900,13 +952,15 @@ class StoreRun:
             self.stats.inc("skipped_ops_mixed_tag")
             return True
         decs = {}
+        writtens = {}
         self.last_input = self.current
         for tag in ("PS", "HP"):
             out = self.newfile("twin_%s" % tag)
             what = "op %d twin(lib=%s) --tag=%s" % (i, lib, tag)
             ok, res = self.guarded(what, lambda: self._phase([self.libs[lib]], self.current, out, tag,
                                                              samples=op.get("samples") and tsamples, chroms=op.get("chroms") and tchroms,
-                                                             noref=op.get("noref", False), distrust=op.get("distrust", False)), "C09", "phase-crashed")
+                                                             noref=op.get("noref", False), distrust=op.get("distrust", False), extra=op.get("extra")), "C09", "phase-crashed",
+                                   rare_options=bool(op.get("extra") or op.get("distrust")))
             if not ok:
                 return False
             written, touched = res
@@ -914,7 +968,14 @@ class StoreRun:
             if dec is None:
                 return False
             decs[tag] = dec
+            writtens[tag] = written
         self.stats.inc("op_twin")
+        if writtens["PS"] != writtens["HP"]:
+            # the two runs did not compute the same phasing (some rarely used algorithms are not repeatable from run to
+            # run): that is not a question of encodings. R1-R3 have been checked for each run on its own.
+            self.stats.inc("twin_runs_computed_different_phasings")
+            self.log.add("twin-different-phasings")
+            return True
         if op.get("distrust"):
             self.stats.inc("twin_distrust_genotypes")
         if decs["PS"] != decs["HP"]:
@@ -1053,6 +1114,16 @@ class StoreRun:
 
         try:
             self._unphase(src, out)
+        except (ChildRaised, ChildCrashed) as e:
+            tname = getattr(e, "type_name", "ProcessDied")
+            site = getattr(e, "site", "")
+            self.add("C13", "unphase-crashed",
+                     "%s raised %s: %s (in %s) on a well-formed VCF with call shapes %s%s" % (
+                         what, tname, getattr(e, "message", str(e)), site, shapes,
+                         ", header without ##contig lines" if self.world.get("no_contig_lines") else
+                         ", header with some ##contig lines only" if self.world.get("omit_contig_lines") else ""),
+                     "unphase-crashed:%s:%s" % (tname, site))
+            return False
         except Exception as e:
             tb = traceback.format_exc()
             site = [l for l in tb.strip().splitlines() if l.strip().startswith("File")][-1].split(", in ")[-1]
@@ -1078,8 +1149,9 @@ class StoreRun:
             self._unphase(out, out2)
             _, _, recs2 = raw_records(out2)
         except Exception as e:
-            self.add("C13", "unphase-twice-crashed", "%s: unphasing the output again raised %s: %s" % (what, type(e).__name__, e),
-                     "unphase-twice-crashed:%s" % type(e).__name__)
+            tname = getattr(e, "type_name", type(e).__name__)
+            self.add("C13", "unphase-twice-crashed", "%s: unphasing the output again raised %s: %s" % (what, tname, e),
+                     "unphase-twice-crashed:%s" % tname)
             return False
         if recs2 != out_recs:
             k = [j for j, (a, b) in enumerate(zip(out_recs, recs2)) if a != b]
@@ -1158,6 +1230,8 @@ class HistEngine(Engine):
         import pysam
 
         pysam.set_verbosity(0)
+        # imported here once, so that the forked child of every operation finds them loaded
+        import whatshap.cli.phase, whatshap.cli.unphase, whatshap.cli.haplotag, whatshap.cli.haplotagphase  # noqa
         log = EventLog()
         stats = Counter()
         d = _workdir()
@@ -1206,7 +1280,7 @@ class HistEngine(Engine):
             size //= 2
         # simplify op arguments
         for j, o in enumerate(ops):
-            for key in ("samples", "chroms", "noref", "only_snvs", "outfmt", "distrust"):
+            for key in ("samples", "chroms", "noref", "only_snvs", "outfmt", "distrust", "extra"):
                 if o.get(key):
                     cand = dict(case)
                     o2 = dict(o)
